@@ -668,3 +668,4 @@ class C14(Base):
 
 
 P = C14()
+P.RULE = P.RULE + ' The formatter types A and C are two distinct types with the same Args type AND the same `std::any::type_name` (declared under one name in two closures).'
